@@ -27,13 +27,22 @@ def run_batch(job):
     import logging
     logging.disable(logging.CRITICAL)
     simrt.install()
-    return [run_one(it) for it in job]
+    return [r_ for it in job for r_ in run_one(it)]
 
 
 def run_one(it):
-    rec = dict(it)
-    rec.update({"writes": [], "delivered": [], "result": "none", "wedged": False, "length_increased": False,
-                "lenbyte": bool(it["corrupt"] and it["pos"] == 0)})
+    """One pair of stations, one long-lived line; the messages it["seq"] = [(n, header), ...] (default: the single message
+    (it["n"], it["h"])) are transferred one after another.  Returns one record per message."""
+    seq = it.get("seq") or [(it["n"], it["h"])]
+    recs = []
+    for qi, (n_, h_) in enumerate(seq):
+        r0 = dict(it)
+        r0.pop("seq", None)
+        r0.update({"id": it["id"] + qi, "n": n_, "h": h_, "seq_pos": qi, "seq_len": len(seq), "writes": [], "delivered": [], "result": "none",
+                   "wedged": False, "length_increased": False, "lenbyte": bool(it["corrupt"] and it["pos"] == 0)})
+        recs.append(r0)
+    cur = {"rec": recs[0]}
+    rec = recs[0]
 
     def main(s):
         import secsgem.common
@@ -58,13 +67,13 @@ def run_one(it):
         ls, lr = (lh, le) if it["dir"] == "h2e" else (le, lh)
         pend = {"S": bytearray(), "R": bytearray()}
         sent_count = {"S": 0}
-        ls.on_send_hook = lambda d: (rec["writes"].append({"who": "S", "bytes": list(d)}), pend["S"].extend(d))
-        lr.on_send_hook = lambda d: (rec["writes"].append({"who": "R", "bytes": list(d)}), pend["R"].extend(d))
+        ls.on_send_hook = lambda d: (cur["rec"]["writes"].append({"who": "S", "bytes": list(d)}), pend["S"].extend(d))
+        lr.on_send_hook = lambda d: (cur["rec"]["writes"].append({"who": "R", "bytes": list(d)}), pend["R"].extend(d))
 
         def on_msg(d):
             m = d["message"]
             h = m.header
-            rec["delivered"].append({"h": {"r": h.from_equipment, "dev": h.device_id, "w": h.require_response, "s": h.stream,
+            cur["rec"]["delivered"].append({"h": {"r": h.from_equipment, "dev": h.device_id, "w": h.require_response, "s": h.stream,
                                            "f": h.function, "sys": list(h.system.to_bytes(4, "big"))},
                                      "n": len(m.data), "same": bytes(m.data) == pattern(len(m.data))})
 
@@ -74,50 +83,59 @@ def run_one(it):
         lh.connect()
         le.connect()
         s.settle()
-        h = it["h"]
-        hdr = SecsIHeader(int.from_bytes(bytes(h["sys"]), "big"), h["dev"], h["s"], h["f"], 0, h["r"], h["w"], True)
-        msg = SecsIMessage(hdr, pattern(it["n"]))
-        done = {"v": False}
+        def transfer(rec_m):
+            sent_count["S"] = 0
+            h = rec_m["h"]
+            hdr = SecsIHeader(int.from_bytes(bytes(h["sys"]), "big"), h["dev"], h["s"], h["f"], 0, h["r"], h["w"], True)
+            msg = SecsIMessage(hdr, pattern(rec_m["n"]))
+            done = {"v": False}
 
-        def do_send():
-            rec["result"] = bool(snd.send_message(msg))
-            done["v"] = True
+            def do_send():
+                rec_m["result"] = bool(snd.send_message(msg))
+                done["v"] = True
 
-        th = simrt.Thread(target=do_send, name="sender_app")
-        th.start()
-        # the line: move bytes in chunks; corrupt one byte of the chosen block on its way to the receiver
-        blocks = [bytes(b.encode()) for b in msg.blocks]
-        block_no = 0        # which block the sender is currently transmitting
-        moved_in_block = 0
-        idle = 0
-        while idle < 3 and not (done["v"] and not pend["S"] and not pend["R"]):
-            s.settle()
-            moved = False
-            for who, dst in (("S", lr), ("R", ls)):
-                buf = pend[who]
-                if not buf:
-                    continue
-                k = len(buf) if it["chunk"] == "whole" else (1 if it["chunk"] == "byte" else rng.choice([1, 2, 3, 5, 11, 64, len(buf)]))
-                k = min(k, len(buf))
-                chunk = bytearray(buf[:k])
-                del buf[:k]
-                if who == "S":
-                    # track position inside the block stream to apply the corruption
-                    for j in range(len(chunk)):
-                        pos = sent_count["S"]
-                        sent_count["S"] += 1
-                        if it["corrupt"] and pos == it["_corrupt_abs"]:
-                            chunk[j] = (chunk[j] + it["delta"]) % 256
-                dst.feed(bytes(chunk))
-                moved = True
-            idle = 0 if moved else idle + 1
-        ok, why = s.run_until(lambda: done["v"], max_dt=50)
-        if not ok:
-            rec["wedged"] = True
-            rec["blocked"] = [b["thread"] + ":" + "/".join(b["stack"][-2:]) for b in s.blocked_report()][:6]
+            th = simrt.Thread(target=do_send, name="sender_app")
+            th.start()
+            # the line: move bytes in chunks; corrupt one byte of the chosen block on its way to the receiver
+            blocks = [bytes(b.encode()) for b in msg.blocks]
+            block_no = 0        # which block the sender is currently transmitting
+            moved_in_block = 0
+            idle = 0
+            while idle < 3 and not (done["v"] and not pend["S"] and not pend["R"]):
+                s.settle()
+                moved = False
+                for who, dst in (("S", lr), ("R", ls)):
+                    buf = pend[who]
+                    if not buf:
+                        continue
+                    k = len(buf) if it["chunk"] == "whole" else (1 if it["chunk"] == "byte" else rng.choice([1, 2, 3, 5, 11, 64, len(buf)]))
+                    k = min(k, len(buf))
+                    chunk = bytearray(buf[:k])
+                    del buf[:k]
+                    if who == "S":
+                        # track position inside the block stream to apply the corruption
+                        for j in range(len(chunk)):
+                            pos = sent_count["S"]
+                            sent_count["S"] += 1
+                            if it["corrupt"] and pos == it["_corrupt_abs"]:
+                                chunk[j] = (chunk[j] + it["delta"]) % 256
+                    dst.feed(bytes(chunk))
+                    moved = True
+                idle = 0 if moved else idle + 1
+            ok, why = s.run_until(lambda: done["v"], max_dt=50)
+            if not ok:
+                rec_m["wedged"] = True
+                rec_m["blocked"] = [b["thread"] + ":" + "/".join(b["stack"][-2:]) for b in s.blocked_report()][:6]
+                return True
+            return False
+
+        for rec_m in recs:
+            cur["rec"] = rec_m
+            if transfer(rec_m):
+                break
 
     # absolute offset (in the sender->receiver byte stream) of the byte to corrupt: ENQ bytes count too
-    if it["corrupt"]:
+    if it["corrupt"] and not it.get("seq"):
         from secsgem.secsi.header import SecsIHeader
         from secsgem.secsi.message import SecsIMessage
         h = it["h"]
@@ -132,14 +150,15 @@ def run_one(it):
                 break
             off += len(b)
     s = simrt.run(main, seed=it["seed"], policy=it["policy"], switch_prob=0.3, max_vtime=1e6, wall_timeout=120)
-    rec["outcome"] = s.outcome
-    if s.outcome != "done":
-        rec["wedged"] = True
-        rec["wedge"] = s.wedge_info
-    if s.errors:
-        rec["errors"] = [e[:2] for e in s.errors[:2]]
-    rec.pop("_corrupt_abs", None)
-    return rec
+    for r_ in recs:
+        r_["outcome"] = s.outcome
+        if s.outcome != "done" and r_["result"] == "none":
+            r_["wedged"] = True
+            r_["wedge"] = s.wedge_info
+        if s.errors:
+            r_["errors"] = [e[:2] for e in s.errors[:2]]
+        r_.pop("_corrupt_abs", None)
+    return recs
 
 
 def run(ctx: Ctx):
@@ -174,6 +193,17 @@ def run(ctx: Ctx):
                     tid += 1
                     items.append({"id": tid, "dir": d, "n": n, "h": h, "chunk": chunk, "corrupt": 0, "pos": 0, "delta": 0,
                                   "seed": rng.randrange(1 << 30), "policy": rng.choice(["fifo", "random", "pct"])})
+    # one long-lived line, several messages one after another, system bytes reused (a later transaction may carry the
+    # system bytes of an earlier one; nothing of the earlier message may show up in the later)
+    hA, hB = hs[0], dict(hs[0], sys=[0, 0, 16, 2], s=6, f=11)
+    for d in ("h2e", "e2h"):
+        for sizes_, hdrs in (([600, 5, 245, 0], [hA, hA, hA, hA]), ([245, 244, 600, 1], [hA, hB, hA, hA]), ([1, 600, 600], [hB, hB, hB])):
+            for chunk in ("whole", "byte", "rand"):
+                tid += 1
+                items.append({"id": tid, "dir": d, "n": sizes_[0], "h": dict(hdrs[0], r=(d == "e2h")), "chunk": chunk, "corrupt": 0, "pos": 0,
+                              "delta": 0, "seed": rng.randrange(1 << 30), "policy": rng.choice(["fifo", "random", "pct"]),
+                              "seq": [(n_, dict(h_, r=(d == "e2h"))) for n_, h_ in zip(sizes_, hdrs)]})
+                tid += len(sizes_) - 1
     # corruptions: every position of a short block, sampled positions of long ones
     for d in ("h2e", "e2h"):
         for n, blkno in ((0, 1), (1, 1), (244, 1), (245, 2), (600, 2), (600, 3)):
@@ -206,7 +236,7 @@ def run(ctx: Ctx):
     ctx.nontrivial += len({(r_["dir"], r_["n"], r_["chunk"], r_["corrupt"], r_["pos"], r_["delta"]) for r_ in recs})
     for r_ in recs:
         v = verd[r_["id"]]
-        if r_["id"] in (2, len(items)):
+        if r_["id"] in (2, 60):
             ctx.sample({k: r_[k] for k in ("dir", "n", "chunk", "corrupt", "pos", "delta", "result", "delivered")}
                        | {"writes": [(w["who"], bytes(w["bytes"][:6]).hex()) for w in r_["writes"][:10]]})
         if v["clause"] != "ok":
@@ -215,6 +245,7 @@ def run(ctx: Ctx):
                 blen_known = len(r_["writes"][2]["bytes"]) if len(r_["writes"]) > 2 else 0
                 region = "length" if r_["pos"] == 0 else "header" if r_["pos"] <= 10 else "data-or-checksum"
             ctx.violation({"check": "line", "clause": v["clause"], "dir": r_["dir"], "n": r_["n"], "chunk": r_["chunk"],
+                           "position_in_sequence": [r_.get("seq_pos", 0), r_.get("seq_len", 1)],
                            "corrupt_block": r_["corrupt"], "corrupt_pos": r_["pos"], "delta": r_["delta"], "corrupt_region": region,
                            "length_increased": r_["length_increased"],
                            "result": r_["result"], "delivered": r_["delivered"], "blocked": r_.get("blocked"),
@@ -222,7 +253,7 @@ def run(ctx: Ctx):
                            "what": f"{r_['dir']} body {r_['n']} chunk={r_['chunk']} corrupt=block {r_['corrupt']} byte {r_['pos']} "
                                    f"(+{r_['delta']}): {v['clause']}"})
     ctx.rule = ("transfers = 2 directions x body sizes {0,1,244,245,600} x chunking {whole blocks, single bytes, random} x 2 headers "
-                "without fault + one-byte corruptions (every position of short blocks, boundary + sampled positions of long ones, two "
+                "without fault + sequences of 3-4 messages on one long-lived line with reused system bytes + one-byte corruptions (every position of short blocks, boundary + sampled positions of long ones, two "
                 "deltas) under fifo/random/PCT schedules; judged against reference blocks computed by TLC")
     ctx.assumptions += ["only one side transmits at a time (premise of the property); no contention scenarios",
                         "FakeConnection stands for the serial connection (bytes in, bytes out)"]
